@@ -148,6 +148,15 @@ def gen_case(rng, flavor=None, size=None):
             ops.append(['undo', rng.choice([1, 1, 1, 2, 3])])
             # the symbolic view may now be off (un-creation, relinking): forget what is uncertain
             clean = True
+            if rng.random() < 0.5:
+                # make the undo (and maybe a redo) revision non-current, then pack after it
+                if rng.random() < 0.4:
+                    ops.append(['undo', 1])
+                for s in [x for x in SLOTS if cur.get(x) == 'linked'][:2]:
+                    ops.append(['write', s, rng.choice(['w', 'a']), gen_data(rng)])
+                ops.append(['commit', None])
+                end_txn(True)
+                ops.append(['pack', rng.choice([0, 0, 1])])
         elif ncommit:
             if not clean:
                 ops.append(['commit', None])
@@ -444,6 +453,8 @@ def run_case(case, root):
 
             def boundary(after):
                 guard()
+                if env.abort_intruder():
+                    check_disk('abort')        # a transaction begun during a finish and aborted: no file
                 check_disk(after)
                 check_other_connection(after)
                 check_own_view(after)
@@ -802,6 +813,7 @@ def run_case(case, root):
                         t = cands[-min(op[1], len(cands))]
                         c1_drop()
                         tm0.abort()
+                        F0.clear()
                         db.undo(encodebytes(p64(t['tid'])).rstrip(), tm0.get())
                         try:
                             tm0.commit()
@@ -819,6 +831,7 @@ def run_case(case, root):
                             cnt('skip')
                             continue
                         tm0.abort()
+                        F0.clear()
                         c1_drop()
                         tids = [t['tid'] for t in txns]
                         i = min(op[1], len(tids))
@@ -894,7 +907,8 @@ def run_case(case, root):
             env.close()
     if faulted[0]:
         # the model has no raw-fault operation: a faulted history is judged by the oracle alone
-        return dict(lines=[], real=[], problems=problems, nontrivial=nontrivial[0], stats=stats)
+        return dict(lines=[], real=[], problems=problems, nontrivial=nontrivial[0], stats=stats,
+                    tie=env.tie_breaks)
     return dict(lines=['reset ' + flavor] + env.lines + extra[0], real=['ok'] + env.real + extra[1],
-                problems=problems,
+                problems=problems, tie=env.tie_breaks,
                 nontrivial=nontrivial[0], stats=stats)
